@@ -79,6 +79,52 @@ class Graph(object):
                 stack.append((d, path + [(l, d)]))
         return out, not stack
 
+    def cover_classes(self, key, init=None):
+        """Paths from the initial state that traverse at least one edge of every equivalence class key(src, label, dst)
+        (used when the state carries history/observation variables that multiply edges without adding behaviour)."""
+        init = init or self.init
+        # BFS tree
+        prev = {init: None}
+        order = [init]
+        dq = collections.deque([init])
+        while dq:
+            s = dq.popleft()
+            for (l, d) in self.out.get(s, ()):
+                if d != s and d not in prev:
+                    prev[d] = (s, l)
+                    order.append(d)
+                    dq.append(d)
+        chosen = {}
+        for s in order:
+            for (l, d) in self.out.get(s, ()):
+                if d == s:
+                    continue
+                k = key(s, l, d)
+                if k not in chosen:
+                    chosen[k] = (s, l, d)
+        paths = []
+        done = set()
+        # longest first: a path to a deep edge covers the classes of its prefix edges too
+        def route(s):
+            r = []
+            while prev[s] is not None:
+                ps, l = prev[s]
+                r.append((l, s))
+                s = ps
+            r.reverse()
+            return r
+        items = sorted(chosen.items(), key=lambda kv: -len(route(kv[1][0])))
+        for k, (s, l, d) in items:
+            if k in done:
+                continue
+            path = route(s) + [(l, d)]
+            cur = init
+            for (pl, pd) in path:
+                done.add(key(cur, pl, pd))
+                cur = pd
+            paths.append(path)
+        return paths, len(chosen)
+
     def edge_cover(self, is_step=lambda lab: True, limit=None, init=None):
         """Paths (lists of (label, dst)) from the initial state that together traverse every edge."""
         covered = set()
